@@ -680,6 +680,7 @@ spifconf_shell_expand(spif_charptr_t s)
                       /* Nothing was produced for this reference; do not leave a hole in the output. */
                       j--;
                   }
+                  FREE(EnvVar);
               } else {
                   newbuff[j] = *pbuff;
               }
